@@ -515,6 +515,10 @@ def scoped(rep, rx):
 
 
 def run(rep, prog, tier):
+    for f_ in ('dadi/Integration.py:one_pop', 'dadi/Integration.py:_one_pop_const_params', 'dadi/Integration.py:_inject_mutations_1D', 'dadi/Integration.py:_Vfunc', 'dadi/Integration.py:_Mfunc1D',
+               'dadi/Integration.py:_compute_dfactor', 'dadi/Numerics.py:linear_extrap', 'dadi/Numerics.py:quadratic_extrap', 'dadi/Numerics.py:cubic_extrap',
+               'dadi/Spectrum_mod.py:Spectrum._from_phi_1D_analytic', 'dadi/Demographics1D.py:two_epoch', 'dadi/Demographics1D.py:growth', 'dadi/Demographics1D.py:three_epoch'):
+        rep.saw_function(f_)
     check_equilibrium(rep, prog)
     check_timestep(rep, prog)
     n0 = len(rep.obls)
